@@ -283,6 +283,7 @@ def run(ctx) -> None:
                 ctx.evaluated(1, ("dfs", L, CS, W, k))
                 ctx.validated(1)
             ctx.extra.setdefault("dfs_schedules", []).append(dict(L=L, CS=CS, W=W, schedules=k, exhausted=k < limit))
+        random_sources(ctx, yaw, root)
         if not quick:
             real_processes(ctx, yaw, root, rng)
     # binding demonstration for the comparator
@@ -313,6 +314,43 @@ def judge(ctx, yaw, outcome, exp, cache, has_w, has_z, mode, params):
         return
     if re != outcome[1]:
         ctx.violation(f"C02|{tag}|reopened_catalog_differs", dict(params=params))
+
+
+def random_sources(ctx, yaw, root) -> None:
+    """Random generator as the source: the catalog holds exactly the requested number of records - the points the
+    generator yields chunk by chunk - for sizes around multiples of the chunk size."""
+    import yaw.randoms
+
+    centres = yaw.AngularCoordinates(np.deg2rad([[10.5, 0.0], [14.5, 0.0]]))
+    n = 0
+    for CS in (4, 5):
+        for N in (CS - 1, CS, CS + 1, 2 * CS - 1, 2 * CS, 2 * CS + 1, 3 * CS):
+            for W in (1, 2):
+                n += 1
+                gen = yaw.randoms.BoxRandoms(10, 15, -1, 1, seed=5)
+                cache = root / f"rand{n}"
+                s_, outcome = detrt.run_main(lambda: got_records(yaw.Catalog.from_random(cache, gen, N, patch_centers=centres, chunksize=CS,
+                                                                                      max_workers=W, overwrite=True), False, False), seed=n)
+                ctx.evaluated(1, ("random", N, CS, W))
+                ctx.validated(1)
+                params = dict(format="random", N=N, chunksize=CS, workers=W)
+                cls = "N=k*chunksize" if N % CS == 0 else "N=k*chunksize+r"
+                if outcome[0] != "ok":
+                    ctx.violation(f"C02|random|{cls}|workers={'1' if W == 1 else 'n'}|creation_{outcome[0]}", dict(params=params, error=repr(outcome[1])[:200]))
+                    continue
+                ref = yaw.randoms.BoxRandoms(10, 15, -1, 1, seed=5)
+                exp_pts = []
+                left = N
+                while left > 0:
+                    pts = ref(min(CS, left))
+                    exp_pts += list(zip(pts["ra"].tolist(), pts["dec"].tolist()))
+                    left -= min(CS, left)
+                got_pts = sorted((r[2], r[3]) for recs in outcome[1].values() for r in recs)
+                exp_rad = sorted((float(a), float(b)) for a, b in exp_pts)      # the generator yields radian
+                if len(got_pts) != N:
+                    ctx.violation(f"C02|random|{cls}|workers={'1' if W == 1 else 'n'}|record_count", dict(params=params, stored=len(got_pts)))
+                elif any(ulp_diff(g[0], e[0]) > 2 or ulp_diff(g[1], e[1]) > 2 for g, e in zip(got_pts, exp_rad)):
+                    ctx.violation(f"C02|random|{cls}|workers={'1' if W == 1 else 'n'}|points_differ_from_generator", dict(params=params))
 
 
 def _slow_split(chunk, patch_centers, _orig=None, _delays=None):
